@@ -91,6 +91,9 @@ impl Scene for S {
         }
         if self.backlog {
             r.work.push((30, crate::world::Work { sleep: 3, ..Default::default() }));
+            // ... and an interval_with of period 1, whose waiting send is held up for longer than
+            // its period while the backlog lasts
+            r.started_actions.push(Action::IntervalWith { timer: 8, period: 1 });
         }
         vec![r]
     }
@@ -271,6 +274,13 @@ impl Scene for S {
             crate::check::oblige("timers-keep-firing");
             // the slow message runs from t=5 to t=8, the client's Sleep(8) ends at t>=13: ticks of
             // the interval are due (and the actor is idle) at t=10 and t=12
+            if !an.enters.iter().any(|e| matches!(e.cb, Cb::Tick { timer: 8, reg_inc: 0 }) && e.time >= 11) {
+                out.push(Violation {
+                    clause: "timers-keep-firing",
+                    key: format!("C15/only-strong={sub}/interval_with-after-a-full-mailbox"),
+                    detail: "the interval_with (period 1) was held up by the full mailbox from t=6 to t=8; afterwards it never ticked again".into(),
+                });
+            }
             if !an.enters.iter().any(|e| matches!(e.cb, Cb::Tick { timer: 1, reg_inc: 0 }) && e.time >= 10) {
                 out.push(Violation {
                     clause: "timers-keep-firing",
